@@ -247,8 +247,9 @@ def wrapper_one(dt, capcase, prop="C14"):
         goals.append(("at most min(max_iters, n) columns", iterm(Qd.shape[1]) <= mcap.term))
         labels = sorted(a_.__name__ for a_ in getattr(Q, "annotations", set()))
         if labels and prop == "C05":
-            goals.append(("reported labels on Q: only Stiefel, and every returned column is one of the columns 1..i-1 of the final state, which the loop invariant (orthonormality "
-                      "obligations) makes orthonormal", z3.And(z3.BoolVal(set(labels) <= {"Stiefel"}), iterm(Qd.shape[1]) <= ifin.term - 1)))
+            goals.append(("reported labels on Q: at most Stiefel", z3.BoolVal(set(labels) <= {"Stiefel"})))
+            goals.append(("reported labels on Q: every returned column is one of the columns 1..i-1 of the final state, which the loop invariant (orthonormality obligations) "
+                          "makes orthonormal", iterm(Qd.shape[1]) <= ifin.term - 1))
         same("T diagonal = alpha_1..alpha_k", T.beta, arr((SInt(k), 1), lambda j, z: kidx.one(Df, z3.IntVal(0), j), wdtype), goals)
         same("T sub-diagonal = beta_1..beta_{k-1}", T.alpha, arr((SInt(k - 1), 1), lambda j, z: kidx.one(Sf, z3.IntVal(0), j + 1), wdtype), goals)
         same("T super-diagonal = the same off-diagonal (symmetric T)", T.gamma, T.alpha, goals)
